@@ -99,11 +99,18 @@ Definition lim (c : case) : limits :=
 
 (* output: [revised publishing interval; keep-alive; lifetime] or [-2] at a panic, then
    [revised sampling interval; revised queue size] *)
+(* the revised interval a monitored item HOLDS after MonitoredItem::new and after
+   MonitoredItem::modify with the same request, for an item without a filter, with a
+   DataChangeFilter and with an EventFilter: the kind of filter plays no part in the revision *)
+Definition item_intervals (samp : limits -> f64 -> f64) (c : case) : list Z :=
+  repeat (canon (samp (lim c) (of_bits (c_samp c)))) 6.
+
 Definition run_with (samp : limits -> f64 -> f64) (c : case) : list Z :=
   (match revise_subscription_values (lim c) (of_bits (c_pub c)) (c_ka c) (c_lt c) with
    | Panic => [-2]
    | Done (p, k, t) => [canon p; k; t]
-   end) ++ [canon (samp (lim c) (of_bits (c_samp c))); sanitize_queue_size (lim c) (c_q c)].
+   end) ++ [canon (samp (lim c) (of_bits (c_samp c))); sanitize_queue_size (lim c) (c_q c)]
+  ++ item_intervals samp c.
 
 Definition run (c : case) : list Z := run_with sanitize_sampling_interval c.
 Definition legacy_run (c : case) : list Z := run_with Legacy.sanitize_sampling_interval c.
@@ -121,14 +128,18 @@ Definition validb (c : case) : bool :=
 Definition valid (c : case) : Prop := validb c = true.
 
 (* the property: the five bounds of the statement, on an observed output *)
+Definition samp_ok (c : case) (s : Z) : bool :=
+  (s =? BITS_M1) || fle (of_bits (c_min_samp c)) (of_bits s).
 Definition bounds (c : case) (out : list Z) : bool :=
   match out with
-  | [p; k; t; s; qs] =>
+  | p :: k :: t :: s :: qs :: items =>
       fle (of_bits (c_min_pub c)) (of_bits p) &&
       ((1 <=? k) && (k <=? c_max_ka c)) &&
       (3 * k <=? t) &&
-      ((s =? BITS_M1) || fle (of_bits (c_min_samp c)) (of_bits s)) &&
-      ((1 <=? qs) && (qs <=? c_max_q c))
+      samp_ok c s &&
+      ((1 <=? qs) && (qs <=? c_max_q c)) &&
+      (* the same bound on the interval every created / modified item holds, whatever its filter *)
+      Nat.eqb (length items) 6 && forallb (samp_ok c) items
   | _ => false
   end.
 
